@@ -55,12 +55,15 @@ class MapFiller(Visitor):
         return circuitbuilder.build(sexpr, inject_pulses=inject_pulses)
 
     def visit_BlockStatement(self, block):
+        statements = [self.visit(stmt) for stmt in block.statements]
+        if block.subcircuit:
+            return ["subcircuit_block", block.iterations, *statements]
         if block.parallel:
             block_type = "parallel_block"
         else:
             block_type = "sequential_block"
 
-        sexpr = [block_type, *(self.visit(stmt) for stmt in block.statements)]
+        sexpr = [block_type, *statements]
         return sexpr
 
     def visit_LoopStatement(self, loop):
